@@ -115,6 +115,9 @@ type Scenario struct {
 	Crash bool `json:"crash,omitempty"`
 	// Fine enables engine yield points (needs the instrumented overlay build).
 	Fine bool `json:"fine,omitempty"`
+	// SlowPlugins makes "time passes" the default choice while a sequence action's plugin call is parked (the plugin
+	// is slow by default and answering is the deviation); the tick budget bounds it.
+	SlowPlugins bool `json:"slowPlugins,omitempty"`
 	// SelectOrder fixes the poll order of Go's select statements for the whole execution (the runtime's random
 	// order is a source of nondeterminism the harness owns): 0/1 = source order, 2 = last case first.
 	SelectOrder int `json:"selectOrder,omitempty"`
